@@ -23,6 +23,7 @@ type Program struct {
 	fns         map[string]*ssa.Function
 	specPrelude string
 	specBase    string
+	specCex     string
 	indAxioms   []string
 	sizes       types.Sizes
 	repo        string
@@ -267,6 +268,49 @@ func (p *Program) buildSpecPrelude() (err error) {
 		sb.WriteString("(assert " + env.trBool(a.E) + ") ; axiom " + a.Name + "\n")
 	}
 	p.specBase = sb.String()
+	// definitional prelude for counterexample search and concrete evaluation
+	{
+		var cb strings.Builder
+		cb.WriteString("(define-fun-rec zeros ((n Int)) (Seq Int) (ite (<= n 0) (as seq.empty (Seq Int)) (seq.++ (seq.unit 0) (zeros (- n 1)))))\n")
+		for _, n := range p.specs.FunOrder {
+			f := p.specs.Funs[n]
+			if f.Uninter {
+				ps, _ := sig(f)
+				if f.CexBody != nil {
+					env := &Env{g: g, vars: map[string]Val{}, pure: true}
+					for _, prm := range f.Params {
+						env.vars[prm.Name] = Val{T: "a!" + prm.Name, Sort: specSort(prm.Type)}
+					}
+					v := env.tr(f.CexBody)
+					t := ""
+					if specSort(f.Ret) == "(Seq Int)" {
+						t = env.asSeq(v)
+					} else {
+						t = env.rv(v).T
+					}
+					cb.WriteString(fmt.Sprintf("(define-fun sf_%s (%s) %s %s)\n", f.Name, ps, specSort(f.Ret), t))
+				} else {
+					cb.WriteString(fmt.Sprintf("(declare-fun sf_%s (%s) %s)\n", f.Name, sorts(f), specSort(f.Ret)))
+				}
+			}
+		}
+		// non-recursive functions that do not depend on recursive ones come first; to keep it
+		// simple everything else goes into one mutually recursive group.
+		var heads, bodies []string
+		for _, n := range p.specs.FunOrder {
+			f := p.specs.Funs[n]
+			if f.Uninter {
+				continue
+			}
+			ps, _ := sig(f)
+			heads = append(heads, fmt.Sprintf("(sf_%s (%s) %s)", f.Name, ps, specSort(f.Ret)))
+			bodies = append(bodies, body(f))
+		}
+		if len(heads) > 0 {
+			cb.WriteString("(define-funs-rec (" + strings.Join(heads, "\n ") + ")\n (" + strings.Join(bodies, "\n ") + "))\n")
+		}
+		p.specCex = cb.String()
+	}
 	for _, l := range p.specs.IndLemmas {
 		env := &Env{g: g, vars: map[string]Val{}, pure: true}
 		t := env.trBool(l.E)
